@@ -10,10 +10,28 @@ where for<'a> &'a Self: EucRingOps<Self> {}
 impl<T> DivRound for T
 where T: Integer, for<'x> &'x T: IntOps<T> {
     fn div_round(&self, q: &Self) -> Self {
-        let a = self.to_f64().unwrap();
-        let b = q.to_f64().unwrap();
-        let r = (a / b).round();
-        Self::from_f64(r).unwrap()
+        // exact rounding (half away from zero), without passing through f64.
+        let quo = self / q;
+        let rem = self % q; // has the sign of `self`, |rem| < |q|
+
+        if rem.is_zero() { 
+            return quo
+        }
+
+        let same_sign = rem.is_negative() == q.is_negative();
+        let round_off = if same_sign {      // |rem| >= |q - rem|
+            let d = q - &rem;
+            if q.is_negative() { rem <= d } else { rem >= d }
+        } else {                            // |rem| >= |q + rem|
+            let d = q + &rem;
+            if q.is_negative() { rem >= -d } else { -rem >= d }
+        };
+
+        match (round_off, same_sign) { 
+            (false, _)    => quo,
+            (true, true)  => quo + Self::one(),
+            (true, false) => quo - Self::one()
+        }
     }
 }
 
